@@ -93,6 +93,7 @@ func c03Mark[V univers.Version[V], VR univers.VersionRange[V]](e univers.Ecosyst
 	vv.Assume(eb == nil)
 	vm, em := e.NewVersion(base + marker)
 	vv.Assume(em == nil)
+	vv.Reached()
 	vv.Assume(!vv.Known("KF-C03-gem-dotted-prerelease", c03GemDotted(e.Name(), marker)))
 	vv.Assert(sign(vm.Compare(vb)) == dir, "C03: marked version is not on the documented side of the unmarked one")
 	vv.Assert(sign(vb.Compare(vm)) == -dir, "C03: marked version is not on the documented side of the unmarked one (reverse)")
